@@ -507,27 +507,26 @@ theorem literal_tables_as_modelled :
       ("write_infinity_f16", "\"INFINITY\"", "1.#INFh"),
       ("write_infinity_f32", "\"INFINITY\"", "1.#INFf"),
       ("write_infinity_f64", "panic!(\"invalid msl\")", "1.#INFL")] ∧
-    generateLiteralHlsl = generateLiteralMsl ∧
-    generateLiteralHlsl.map (fun a => (a.1, a.2.1)) = [
-      ("ir::Constant::Bool(v)", ""),
-      ("ir::Constant::IntLiteral(v)", "v < 0 && -v <= u64::MAX as i128"),
-      ("ir::Constant::IntLiteral(v)", "v >= 0 && v <= u64::MAX as i128"),
-      ("ir::Constant::IntLiteral(_)", ""),
-      ("ir::Constant::Int32(v)", "v < 0"),
-      ("ir::Constant::Int32(v)", ""),
-      ("ir::Constant::UInt32(v)", ""),
-      ("ir::Constant::Int64(v)", ""),
-      ("ir::Constant::UInt64(v)", ""),
-      ("ir::Constant::FloatLiteral(v)", ""),
-      ("ir::Constant::Float16(v)", ""),
-      ("ir::Constant::Float32(v)", ""),
-      ("ir::Constant::Float64(v)", ""),
-      ("ir::Constant::String(_)", ""),
-      ("ir::Constant::Enum(id, ref c)", "")] ∧
-    (generateLiteralHlsl.drop 5).map (fun a => a.2.2) = [
-      "ast::Literal::IntUntyped(v as u64)", "ast::Literal::IntUnsigned32(u64::from(v))", "ast::Literal::IntSigned64(v)",
-      "ast::Literal::IntUnsigned64(v)", "ast::Literal::FloatUntyped(v)", "ast::Literal::Float16(v)",
-      "ast::Literal::Float32(v)", "ast::Literal::Float64(v)", "panic!(\"literal string not expected in output\")", "enum"] ∧
+    generateLiteralHlsl = [
+      ("ir::Constant::Bool(v)", "", "ast::Literal::Bool(v)"),
+      ("ir::Constant::IntLiteral(v)", "v < 0 && -v <= u64::MAX as i128",
+       "return Ok(ast::Expression::UnaryOperation( ast::UnaryOp::Minus, Box::new(Located::none(ast::Expression::Literal( ast::Literal::IntUntyped(-v as u64), ))), ))"),
+      ("ir::Constant::IntLiteral(v)", "v >= 0 && v <= u64::MAX as i128", "ast::Literal::IntUntyped(v as u64)"),
+      ("ir::Constant::IntLiteral(_)", "", "return Err(GenerateError::IntLiteralOutOfRange)"),
+      ("ir::Constant::Int32(v)", "v < 0",
+       "return Ok(ast::Expression::UnaryOperation( ast::UnaryOp::Minus, Box::new(Located::none(ast::Expression::Literal( ast::Literal::IntUntyped(u64::from(v.unsigned_abs())), ))), ))"),
+      ("ir::Constant::Int32(v)", "", "ast::Literal::IntUntyped(v as u64)"),
+      ("ir::Constant::UInt32(v)", "", "ast::Literal::IntUnsigned32(u64::from(v))"),
+      ("ir::Constant::Int64(v)", "", "ast::Literal::IntSigned64(v)"),
+      ("ir::Constant::UInt64(v)", "", "ast::Literal::IntUnsigned64(v)"),
+      ("ir::Constant::FloatLiteral(v)", "", "ast::Literal::FloatUntyped(v)"),
+      ("ir::Constant::Float16(v)", "", "ast::Literal::Float16(v)"),
+      ("ir::Constant::Float32(v)", "", "ast::Literal::Float32(v)"),
+      ("ir::Constant::Float64(v)", "", "ast::Literal::Float64(v)"),
+      ("ir::Constant::String(_)", "", "panic!(\"literal string not expected in output\")"),
+      ("ir::Constant::Enum(id, ref c)", "", "enum")] ∧
+    generateLiteralMsl = generateLiteralHlsl.take 12 ++
+      [("ir::Constant::Float64(_)", "", "return Err(GenerateError::UnsupportedDouble)")] ++ generateLiteralHlsl.drop 13 ∧
     parseLiteralArms = [
       ("ast::Literal::Bool(b)", "", "ir::Constant::Bool(*b)"),
       ("ast::Literal::IntUntyped(i)", "", "ir::Constant::IntLiteral(*i as i128)"),
@@ -539,6 +538,48 @@ theorem literal_tables_as_modelled :
       ("ast::Literal::Float64(f)", "", "ir::Constant::Float64(*f)"),
       ("ast::Literal::String(_)", "", "return Err(TyperError::StringNotSupported(SourceLocation::UNKNOWN))")] := by
   decide +kernel
+
+open RsslVerif.Gen.LitFormatTables in
+/-- **msl_double_literal_rejected** (positive statement after fix 9824ce3; before it `1.#INFL;` / `1e999L;` on Metal
+reached `write_infinity_f64` and panicked with `invalid msl`): (1) the Metal `generate_literal`, as extracted on this run,
+has exactly one arm for `ir::Constant::Float64` and it returns `Err(GenerateError::UnsupportedDouble)`; no arm of it builds
+an `ast::Literal::Float64`, so the Metal generator hands no double literal — finite or infinite — to the formatter;
+(2) `format_literal` (model `fmtFloat`) fails only on a NaN (no literal, not reachable from source) or at that panic site,
+and the panic site needs exactly an infinite `Float64` literal printed for Metal: for every other kind, target and bit
+pattern `format_literal` returns a text.  Together: compiling for Metal cannot reach the `invalid msl` panic through a
+literal; the run replays `1.#INFL`, `1e999L`, `-1e999L` (corpus) and expects the `UnsupportedDouble` rejection. -/
+theorem msl_double_literal_rejected :
+    generateLiteralMsl.filter (fun a => a.1 = "ir::Constant::Float64(_)" ∨ a.1 = "ir::Constant::Float64(v)") =
+      [("ir::Constant::Float64(_)", "", "return Err(GenerateError::UnsupportedDouble)")] ∧
+    (∀ a ∈ generateLiteralMsl, a.2.2 ≠ "ast::Literal::Float64(v)") ∧
+    (generateLiteralHlsl.filter (fun a => a.2.2 = "ast::Literal::Float64(v)")).map (·.1) = ["ir::Constant::Float64(v)"] ∧
+    ∀ (k : Model.LitFormat.Kind) (msl : Bool) (bits : Nat) (disp : Bytes) (e : String),
+      Model.LitFormat.fmtFloat k msl bits disp = .error e →
+        (e = "NaN" ∧ k.fmt.infBits < bits % Model.LitFormat.signBit k.fmt) ∨
+        (e = "panic: invalid msl" ∧ k = .f64 ∧ msl = true ∧ bits % Model.LitFormat.signBit k.fmt = k.fmt.infBits) := by
+  refine ⟨by decide +kernel, by decide +kernel, by decide +kernel, ?_⟩
+  intro k msl bits disp e h
+  unfold Model.LitFormat.fmtFloat at h
+  simp only at h
+  split at h
+  · left; rename_i hn; simp at h; exact ⟨h.symm, hn⟩
+  · split at h
+    · rename_i hi
+      right
+      unfold Model.LitFormat.infText at h
+      cases msl <;> cases k <;> simp at h <;> first | exact ⟨h.symm, rfl, rfl, hi⟩ | skip
+    · split at h
+      · simp at h
+      · split at h
+        · simp at h
+        · split at h
+          · split at h <;> simp at h
+          · simp at h
+
+/-- non-vacuity: the failing branch exists in the formatter (an infinite `Float64` for Metal), every other infinity prints -/
+example : (match Model.LitFormat.fmtFloat .f64 true 0x7ff0000000000000 [] with | .error e => e | .ok _ => "") = "panic: invalid msl" ∧
+    (Model.LitFormat.fmtFloat .f64 false 0x7ff0000000000000 []).toOption = some [49, 46, 35, 73, 78, 70, 76] ∧
+    (Model.LitFormat.fmtFloat .f32 true 0x7f800000 []).toOption.isSome = true := by decide
 
 /-- **emit_int_exact**: an integer literal whose payload fits its kind (`< 2^64`; `< 2^32` for `u`; `< 2^63` for `l`) is
 printed by `format_literal` as `Display` of the payload followed by the kind's suffix, and that text — followed by the end
